@@ -41,6 +41,12 @@ func inconclusive(format string, a ...interface{}) error {
 	return &Inconclusive{fmt.Sprintf(format, a...)}
 }
 
+// Observed ends a scenario early because of something the real code did that the recording shows
+// (e.g. a request for a live session answered 404): the recording is validated as it is.
+type Observed struct{ why string }
+
+func (e *Observed) Error() string { return e.why }
+
 type Node struct {
 	id   int
 	port int
@@ -52,6 +58,8 @@ type Node struct {
 	up     bool
 	paused bool
 	exited chan struct{}
+	// started: when the process was started (its expireSessionsTimer fires every 10 s from shortly after)
+	started time.Time
 }
 
 func (n *Node) live() bool {
@@ -77,6 +85,10 @@ type Net struct {
 	client   *http.Client // short requests
 	stream   *http.Client // long polls
 	spawn    chan func()
+	// trailingLogs >= 0 is handed to every node as VERIF_TRAILING_LOGS (raft.Config.TrailingLogs,
+	// see checks/c17_expiry.py build()): with the default of 10240 the raft log is never
+	// compacted in a short run and raft would never send InstallSnapshot
+	trailingLogs int
 
 	unexpectedMu    sync.Mutex
 	unexpectedExits []string
@@ -144,7 +156,7 @@ func generateCert(dir string) (certPath, keyPath string, err error) {
 }
 
 func NewNet(bin, work, out string, rec *Rec, nnodes int, portBase int) (*Net, error) {
-	c := &Net{bin: bin, work: work, out: out, rec: rec, spawn: make(chan func())}
+	c := &Net{bin: bin, work: work, out: out, rec: rec, spawn: make(chan func()), trailingLogs: -1}
 	var err error
 	c.certPath, c.keyPath, err = generateCert(work)
 	if err != nil {
@@ -230,6 +242,9 @@ func (c *Net) Start(id int) error {
 		"ROBUSTIRC_NETWORK_PASSWORD="+networkPassword,
 		"VERIF_TRACE="+c.tracePath(id),
 		"GOMAXPROCS=4")
+	if c.trailingLogs >= 0 {
+		env = append(env, fmt.Sprintf("VERIF_TRAILING_LOGS=%d", c.trailingLogs))
+	}
 	if err := os.MkdirAll(n.dir, 0700); err != nil {
 		return err
 	}
@@ -255,6 +270,7 @@ func (c *Net) Start(id int) error {
 	n.up = true
 	n.paused = false
 	n.exited = exited
+	n.started = time.Now()
 	n.mu.Unlock()
 	go func() {
 		err := cmd.Wait()
@@ -320,7 +336,7 @@ func (c *Net) Kill(id int) {
 	}
 }
 
-// Pause freezes the node (SIGSTOP); it is never resumed, only killed at the end.
+// Pause freezes the node (SIGSTOP) until Resume or Kill.
 func (c *Net) Pause(id int) {
 	n := c.node(id)
 	n.mu.Lock()
@@ -330,6 +346,18 @@ func (c *Net) Pause(id int) {
 	}
 	n.paused = true
 	syscall.Kill(n.cmd.Process.Pid, syscall.SIGSTOP)
+}
+
+// Resume lets a paused node run again (SIGCONT).
+func (c *Net) Resume(id int) {
+	n := c.node(id)
+	n.mu.Lock()
+	defer n.mu.Unlock()
+	if !n.up || !n.paused {
+		return
+	}
+	n.paused = false
+	syscall.Kill(n.cmd.Process.Pid, syscall.SIGCONT)
 }
 
 func (c *Net) Shutdown() {
